@@ -129,6 +129,7 @@ def budget_cases(ctx, world, clock, n):
     rng = ctx.rng
     lits, cj = [], []
     snapshot_world, metric_world = world, e2.World(logger=False, spans=0, metrics=1)
+    span_world = e2.World(logger=False, spans=1, metrics=0)
     for _ in range(n):
         count = rng.choice(["1", "2", "3", "-1"])
         period = rng.choice(["0", "0", "1"])
@@ -138,11 +139,30 @@ def budget_cases(ctx, world, clock, n):
             world = metric_world
             action = LocationAction("tp", "f()", {"fire_count": count, "fire_period": period, "metrics": [MetricDefinition("hits", "COUNTER")]},
                                     LocationAction.ActionType.Metric)
+        elif rng.random() < 0.2:
+            # ... and a span tracepoint (its gate adds "a span processor is loaded" to the same limits-and-condition test)
+            world = span_world
+            action = LocationAction("tp", "f()", {"fire_count": count, "fire_period": period, "span": "line"}, LocationAction.ActionType.Span)
         else:
             world = snapshot_world
             action = LocationAction("tp", "f()", {"fire_count": count, "fire_period": period, "frame_type": "no_frame", "watches": []},
                                     LocationAction.ActionType.Snapshot)
-        world.install([Trigger(LineLocation("m.py", 7, Location.Position.START), [action])])
+        trigger = Trigger(LineLocation("m.py", 7, Location.Position.START), [action])
+        cond_text = "f()"
+        if action.action_type == LocationAction.ActionType.Snapshot and rng.random() < 0.4:
+            # the condition as it ARRIVES: an argument of the tracepoint, through build_trigger - also when its text begins or ends
+            # with a string literal (the value of each of these texts is the value of f(), or false like it)
+            from deep.api.tracepoint.trigger import build_trigger
+            cond_text = rng.choice(['f()', '"" or f()', "'' or f()", 'f() or ""', "f() or ''", ' f() ', '(f())'])
+            trigger = build_trigger("tp", "m.py", 7, {"condition": cond_text, "fire_count": count, "fire_period": period,
+                                                     "frame_type": "no_frame"}, [], [])
+            snaps_ = [a for a in trigger.actions if a.action_type == LocationAction.ActionType.Snapshot]
+            if len(snaps_) != 1:
+                ctx.fail("build_trigger made %d snapshot actions for a tracepoint with a condition" % len(snaps_), dict(condition=cond_text),
+                         tag="built-actions")
+                continue
+            action = snaps_[0]
+        world.install([trigger])
         world.push.snapshots.clear()
         t = e2.BASE_NS
         hits, obs, jh, want = [], [], [], []
@@ -151,7 +171,7 @@ def budget_cases(ctx, world, clock, n):
             t += rng.choice([1, 1000, 2_000_000])
             f, lit, j = outcome(rng) if rng.random() < 0.75 else ((lambda: True), "(EVal %s)" % L.s("True"), dict(value="True"))
             clock.now = t
-            effects = lambda: len(world.push.snapshots) + len([1 for w_, _t, _i, _p in world.log if w_ == "metric"])
+            effects = lambda: len(world.push.snapshots) + len([1 for w_, _t, _i, _p in world.log if w_ in ("metric", "span-open")])
             before = effects()
             _, exc = world.event(e2.mk_frame("/app/m.py", "g", 7, {"f": f}), "line")
             if exc is not None:
@@ -170,7 +190,8 @@ def budget_cases(ctx, world, clock, n):
             if allowed and truth:
                 ref_n, ref_last = ref_n + 1, t
         cnt, _ = e2.stats_of(action)
-        j = dict(fire_count=count, fire_period=period, hits=jh, collected=obs, fires_recorded=cnt, action="metric" if as_metric else "snapshot")
+        j = dict(fire_count=count, fire_period=period, hits=jh, collected=obs, fires_recorded=cnt, condition=cond_text,
+                 action="metric" if as_metric else "span" if world is span_world else "snapshot")
         ctx.case(j, nontrivial=any("raises" in h for h in jh) and any(obs), bucket="budget count=%s" % count)
         # oracle: rejected hits use no budget -> fires recorded == collections; failing conditions never collect
         if obs != want:
